@@ -232,6 +232,7 @@ package cmd
 //@   assume now != 0 && now - from <= 2147483647 at filename
 //@   modifies ghost(nopen, 0), ghost(nlocked, 0)
 //@   ensures no_leak: ghost(nopen, 0) == old(ghost(nopen, 0)) && ghost(nlocked, 0) == old(ghost(nlocked, 0))
+//@   check notexist: ispathne(callret(readWhisperFileLocal, 2)) ==> result0 == nil
 //@ loop (*app).handleView#0
 //@   invariant bounds: 0 <= i && i <= len(h.archiveInfoList)
 //@   invariant buf: (len(buf) == 0 && buf.arr == 0) || buf.arr > old(top)
@@ -430,3 +431,38 @@ package cmd
 //@   ensures ok: result1 == nil ==> result0 != nil && fresh(result0) && handleLive(result0) && fresh(result0.file) && fresh(result0.fileBuf)
 //@                 && ghost(nopen, 0) == old(ghost(nopen, 0)) + 1 && ghost(nlocked, 0) == old(ghost(nlocked, 0)) + ghost(locked, result0.file)
 //@   ensures failed: result1 != nil ==> result0 == nil
+
+//@ func (*app).handleViewRaw
+//@   props C12 C16
+//@   requires a != nil && r != nil
+//@   modifies ghost(nopen, 0), ghost(nlocked, 0)
+//@   ensures no_leak: ghost(nopen, 0) == old(ghost(nopen, 0)) && ghost(nlocked, 0) == old(ghost(nlocked, 0))
+//@   check notexist: ispathne(callret(readWhisperFileRawLocal, 2)) ==> result0 == nil
+//@ loop (*app).handleViewRaw#0
+//@   invariant bounds: 0 <= i && i <= len(h.archiveInfoList)
+//@   invariant buf: (len(buf) == 0 && buf.arr == 0) || buf.arr > old(top)
+
+//@ func (*app).handleSum
+//@   props C12 C16 C10
+//@   requires a != nil && r != nil
+//@   assume now != 0 && now - from <= 2147483647 at now
+//@   modifies ghost(nopen, 0), ghost(nlocked, 0)
+//@   ensures no_leak: ghost(nopen, 0) == old(ghost(nopen, 0)) && ghost(nlocked, 0) == old(ghost(nlocked, 0))
+//@   check notexist: ispathne(callret(sumWhisperFileLocal, 2)) ==> result0 == nil
+//@ loop (*app).handleSum#0
+//@   invariant bounds: 0 <= i && i <= len(h.archiveInfoList)
+//@   invariant buf: (len(buf) == 0 && buf.arr == 0) || buf.arr > old(top)
+
+//@ func (*app).handleItems
+//@   props C12 C16
+//@   requires a != nil && r != nil
+//@   check notexist: ispathne(callret(globItemsLocal, 1)) ==> result0 == nil
+//@ loop (*app).handleItems#0
+//@   invariant bounds: 0 <= iter && iter <= len(items)
+
+//@ func (*app).handleFiles
+//@   props C12 C16
+//@   requires a != nil && r != nil
+//@   check notexist: ispathne(callret(globFilesLocal, 1)) ==> result0 == nil
+//@ loop (*app).handleFiles#0
+//@   invariant bounds: 0 <= iter && iter <= len(items)
